@@ -991,6 +991,14 @@ func (c *CEnv) callExpr(e *CE, hint *Value) Value {
 	if fn, fc, pkg := c.lookupPureFn(name); fn != nil && len(e.Args) == len(fn.Params) {
 		var args []Value
 		for k, p := range fn.Params {
+			if kindOf(p.Type()) == KPtr {
+				a := c.eval(e.Args[k])
+				if a.K != KPtr {
+					c.fail("argument %d of %s must be a pointer in %s", k+1, name, e)
+				}
+				args = append(args, a)
+				continue
+			}
 			z := c.x.zeroValue(p.Type())
 			a := c.evalH(e.Args[k], &z)
 			if a.K != KScalar || a.X.S != z.X.S {
